@@ -104,7 +104,8 @@ def run(out, tier, seed):
     rng = random.Random(seed)
     wheres = [w for w in qgen.systematic() if not qgen.scope_leak(w) and '"graph"' not in json.dumps(w)]
     rng.shuffle(wheres)
-    sel = wheres[:400 if quick else 1400]
+    special = [w for w in wheres if '"subselect"' in json.dumps(w) and ('"optional"' in json.dumps(w) or '"union"' in json.dumps(w))]
+    sel = (special[:150 if quick else 600] + wheres)[:500 if quick else 2000]
     jobs = []
     G1 = [[I("n1"), I("p"), N(1)], [I("n1"), I("q"), I("n1")], [I("n2"), I("p"), N(2)], [I("n2"), I("q"), N(1)], [I("n1"), I("p"), I("n2")], [I("n2"), I("q"), I("n3")]]
     stores = [("graph", "Memory"), ("graph", "SimpleMemory"), ("graph", "Auditable"), ("aggregate", "Memory")]
@@ -126,6 +127,20 @@ def run(out, tier, seed):
                 for val in (I("n1"), N(1), I("n2")):
                     jobs.append({"cfg": {"facade": "graph", "store": stores[i % 3][1]},
                                  "events": [data, {"op": "query", "q": q, "init": {"vars": [v], "rows": [[val]]}}]})
+    # trailing VALUES vs initBindings on a variable of the outermost BGP that an OPTIONAL's FILTER uses
+    optf = [w for w in wheres if len(w["elts"]) == 2 and w["elts"][1]["t"] == "optional" and any(e["t"] == "filter" for e in w["elts"][1]["g"]["elts"])
+            and w["elts"][0]["t"] == "bgp"]
+    for i, w in enumerate(optf):
+        vs = sorted({x["v"] for tp in w["elts"][0]["tps"] for x in tp if x.get("k") == "var"})
+        for v in vs:
+            for val in (N(1), N(2), I("n1"), I("n2")):
+                for gi, gdata in enumerate((G1, qgen.random_graph(rng))):
+                    data = {"op": "data", "quads": [t + ["D"] for t in gdata], "graphs": []}
+                    q = {"form": "select", "proj": ["*"], "where": w}
+                    jobs.append({"cfg": {"facade": "graph", "store": "Memory"}, "events": [data, {"op": "query", "q": q, "init": {"vars": [v], "rows": [[val]]}}]})
+                    jobs.append({"cfg": {"facade": "graph", "store": "Memory"}, "events": [data, {"op": "query", "q": dict(q, postvalues={"vars": [v], "rows": [[val]]})}]})
+                    jobs.append({"cfg": {"facade": "graph", "store": "SimpleMemory"},
+                                 "events": [data, {"op": "prepare", "id": "q", "q": dict(q, postvalues={"vars": [v], "rows": [[val]]})}, {"op": "run", "id": "q"}, {"op": "run", "id": "q"}]})
     out.extra["rewrites"] = nrew
     # (c) prepared-query histories
     for i in range(200 if quick else 1500):
